@@ -64,6 +64,10 @@ impl PropCase for Agree {
             let l = run_f1(a, s);
             ensure!(same(&base, &l, true), "F1/arr-vs-vec", base_s.clone(), format!("{} (buffer {})", log_str(&l), a.name()));
         }
+        {
+            let l = run_f1_from_buf(BufKind::Vec, s);
+            ensure!(same(&base, &l, true), "F1/from_buf-vs-new", base_s.clone(), log_str(&l));
+        }
         // F1 with reset() instead of finalize(): the count must be the same number
         {
             let mut d = new_decoder(BufKind::Vec);
